@@ -643,8 +643,13 @@ func (s *Service) streamResponse(clientCtx, upstreamCtx context.Context, w http.
 	rc := http.NewResponseController(w)
 	isStreaming := core.AutoDetectStreamingMode(clientCtx, resp, s.configuration.GetProxyProfile())
 
-	// Pre-allocate timer to avoid allocations in hot path
-	readDeadline := time.NewTimer(s.configuration.GetReadTimeout())
+	// Pre-allocate timer to avoid allocations in hot path. The read below blocks, so the
+	// timer has to abort it: closing the upstream body makes a stalled Read return
+	var readTimedOut atomic.Bool
+	readDeadline := time.AfterFunc(s.configuration.GetReadTimeout(), func() {
+		readTimedOut.Store(true)
+		_ = resp.Body.Close()
+	})
 	defer readDeadline.Stop()
 
 	for {
@@ -667,6 +672,9 @@ func (s *Service) streamResponse(clientCtx, upstreamCtx context.Context, w http.
 
 		// Read and process data
 		if err := s.processStreamData(resp, buffer, state, w, isStreaming, rc, rlog); err != nil {
+			if readTimedOut.Load() {
+				return state.totalBytes, state.lastChunk, fmt.Errorf("read timeout after %v", s.configuration.GetReadTimeout())
+			}
 			if errors.Is(err, io.EOF) {
 				return state.totalBytes, state.lastChunk, nil
 			}
